@@ -180,7 +180,21 @@ def run(F, R, tier):
                             ok_w = False
                 r4.require(ok_w, (where_, "custom-writer", kind_), "%s carries the writer attribute `%s`%s: the untagged reader (One before Set, Set read as a non-empty sequence) is the inverse of the derived writer only — e.g. a one-element set written as a bare element is read back as One, not equal to what was written" % (
                     L.short(where_), m_.group(0), "" if not fn_w else " and %s does not write the whole value on every path" % fn_w))
-        r4.site("%s: %d writer attribute(s); written by the derived Serialize" % (L.short(ty_), nw_))
+        # a hand-written Serialize is accepted when, per variant, it writes exactly the variant's whole content (what the derive does)
+        sfn_ = next(iter(F.find(r"^<%s as serde(_core)?::ser::Serialize>::serialize$" % re.escape(ty_))), None)
+        hand_ = sfn_ is not None and not F.derived_trait_of(sfn_)
+        if hand_:
+            import sibling as SB
+            for v_ in at_.get("variants", []):
+                X_ = SY.Sym(("param", "content"))
+                ps_ = SB.explore(F, sfn_, [SY.V(v_["name"], (X_,)), SY.Sym(("param", "serializer"))], opaque=r"::serialize$", rule=r4)
+                okv_ = bool(ps_)
+                for q in ps_:
+                    ss_ = q.calls(r"::serialize$")
+                    okv_ = okv_ and len(ss_) == 1 and SR.pure(ss_[0].args[0], ("param", "content")) and SR.pure(q.ret, ss_[0].result.t)
+                r4.require(okv_, (sfn_, "custom-writer", v_["name"]), "the hand-written Serialize of %s does not write the whole content of the %s variant on every path (a one-element %s written as a bare element is read back as One)" % (
+                    L.short(ty_), v_["name"], v_["name"]))
+        r4.site("%s: %d writer attribute(s); written by %s" % (L.short(ty_), nw_, "a hand-written Serialize that forwards each variant's whole content" if hand_ else "the derived Serialize"))
     fn = "identity_core::common::one_or_set::deserialize_non_empty_set"
     if r4.anchor(F.hir(fn), fn):
         tab = SR.Table(F, fn, opaque=r"Deserialize::deserialize$|::deserialize$", rule=r4)
